@@ -65,6 +65,13 @@ func genC19(t *rapid.T) c19Case {
 		if rapid.IntRange(0, 2).Draw(t, "default") == 0 {
 			opt = LookupSpec{}
 		}
+		// options the wrapped store rejects: the error is part of the answer, on every repetition
+		switch rapid.IntRange(0, 11).Draw(t, "rejected-options") {
+		case 0:
+			opt.Latest, opt.FOp, opt.FField = true, "isTemporal", "predicate"
+		case 1:
+			opt.FOp, opt.FField = rapid.SampledFrom([]string{"latest", "isImmutable", "isTemporal"}).Draw(t, "rfop"), "subject"
+		}
 		qs = append(qs, q{call, opt})
 		// sibling differing only in one option field
 		sib := opt
